@@ -210,19 +210,22 @@ fn check_set(run: &Run, base: &Node, u: &St, parent: &Sealed, names: &[String], 
                 break;
             }
         }
-        // thread-pool sizes
+        // thread-pool sizes: every order under every pool size (how rayon splits a batch into sequential chunks depends on both)
         for pool in pools {
-            let txs: Vec<Transaction> = perms[perms.len() - 1].iter().map(|i| s[*i].clone()).collect();
-            run.transition();
-            let o = pool.install(|| apply_as_batch(u, &txs));
-            run.validated();
-            if &o != first {
-                run.violation(
-                    "C03",
-                    format!("pool-size-dependent/{}/{}", diff_fields(first, &o), kinds_of(s)),
-                    format!("set {{{}}} after [{}]: a rayon pool of {} threads gives a different result", names.join(", "), base.path_str(), pool.current_num_threads()),
-                    replay.clone(),
-                );
+            for p in perms.iter() {
+                let txs: Vec<Transaction> = p.iter().map(|i| s[*i].clone()).collect();
+                run.transition();
+                let o = pool.install(|| apply_as_batch(u, &txs));
+                run.validated();
+                if &o != first {
+                    run.violation(
+                        "C03",
+                        format!("pool-size-dependent/{}/{}", diff_fields(first, &o), kinds_of(s)),
+                        format!("set {{{}}} after [{}]: order {:?} on a rayon pool of {} threads gives a different result", names.join(", "), base.path_str(), p, pool.current_num_threads()),
+                        replay.clone(),
+                    );
+                    break;
+                }
             }
         }
         // the block built from this set is accepted identically whatever iteration order its HashSet has
